@@ -40,7 +40,7 @@ ASSUMPTIONS = [
     "CHOLMOD's ssmult/transpose/tril/copy/add are the mathematical matrix operations on dense list matrices (C10_tspline_basis, MonoFitModel.fit_system_mono; the symmetric-triangle storage that calc_penalty switches off while two Kronecker factors are non-diagonal is not modelled); tied by check (vi) on calc_penalty's output and on the captured systems",
     "C10_inactive_fit_returns_unconstrained is about exact arithmetic, an exact KKT point and the back-transformation written as matvec Lbig; that matvec Lbig is the cumulative-sum loop for every shape is not proved (evaluated on an instance in Properties_C10.v, C10_tspline_basis in one dimension; the python oracle of (vi) uses cumulative/suffix sums along monodim and agrees with the code), positive definiteness of the T-basis matrix is a hypothesis (certified exactly per case in (iv))",
     "surface monotonicity is stated through de Boor's derivative formula (BSpline.dBfun); that the formula is the derivative is C02_piece_derivative_formula / C02_formula_is_the_derivative",
-    "knot vectors with distinct knots (repeated knots, which the fitter's bspline() handles since fix 33ef56f, are exercised by C09 and C17, not here); orders 1..4; well-posed (certified nonsingular) normal equations for the inactive-constraint check",
+    "knot vectors with distinct knots (repeated knots, which the fitter's bspline() handles since fix 07dbb30, are exercised by C09 and C17, not here); orders 1..4; well-posed (certified nonsingular) normal equations for the inactive-constraint check",
     "fits are run with OMP_NUM_THREADS=1/GOTO_NUM_THREADS=1 under a progress watchdog (walk_descents can lose a wake-up: C12/D7)",
 ]
 TRUSTED_EXTRA = [
@@ -79,16 +79,22 @@ def case_hash(c):
 def nspl_of(d):
     return len(d["knots"]) - d["order"] - 1
 
-def exact_bspline(kn, x, i, n):
+def exact_bspline(kn, x, i, n, left=False):
+    """Cox-de Boor (0/0 := 0), right-continuous or (left) left-continuous. bsplinebasis() - from which glam.c builds the T-spline
+    basis of the monotonic dimension (bsplinebasis * tril) - takes left = (x >= knots[nsplines]) since fix F30_1, like pointwise
+    evaluation. On the strictly increasing knots of this check (orders >= 1) both sides give the same value at every point
+    (C17_basis_unchanged_on_strict_knots); the side is passed anyway so that this is the specification's basis."""
     if n == 0:
+        if left:
+            return Fr(1) if kn[i] < x <= kn[i + 1] else Fr(0)
         return Fr(1) if kn[i] <= x < kn[i + 1] else Fr(0)
     r = Fr(0)
     d1 = kn[i + n] - kn[i]
     if d1 != 0:
-        r += (x - kn[i]) / d1 * exact_bspline(kn, x, i, n - 1)
+        r += (x - kn[i]) / d1 * exact_bspline(kn, x, i, n - 1, left)
     d2 = kn[i + n + 1] - kn[i + 1]
     if d2 != 0:
-        r += (kn[i + n + 1] - x) / d2 * exact_bspline(kn, x, i + 1, n - 1)
+        r += (kn[i + n + 1] - x) / d2 * exact_bspline(kn, x, i + 1, n - 1, left)
     return r
 
 def gen_dim(rng, maxspl, is_mono):
@@ -124,7 +130,7 @@ def gen_dim(rng, maxspl, is_mono):
             if not (lo <= x < hi):
                 continue
         elif cls == "knot":
-            x = rng.choice(knots[:-1])
+            x = rng.choice(knots)          # any knot: those at/above knots[nsplines] and the last knot included (left-continuous basis there)
         else:
             x = rng.rint(int(knots[0] * g), int(knots[-1] * g) - 1) / g
         if x in pts:
@@ -173,7 +179,7 @@ def gen_case(rng, cid, big=False):
         bas = []
         for d in dims:
             kn = [Fr(k) for k in d["knots"]]
-            bas.append([[float(exact_bspline(kn, Fr(x), i, d["order"])) for i in range(nspl_of(d))] for x in d["coords"]])
+            bas.append([[float(exact_bspline(kn, Fr(x), i, d["order"], Fr(x) >= kn[nspl_of(d)])) for i in range(nspl_of(d))] for x in d["coords"]])
     entries = []
     import itertools
     for idx in itertools.product(*[range(s) for s in shape]):
